@@ -143,11 +143,48 @@ var verifC09Jobs = []string{
       - run: echo
         shell: cmd
       - run: echo ${{ unknown.ctx }}
+`, `
+    strategy:
+      matrix:
+        os: [a, b]
+        ver: [1, 2]
+    uses: owner/repo/.github/workflows/w.yml@main
+    with:
+      os: ${{ matrix.os }}
+`, `
+    runs-on: ubuntu-latest
+    strategy:
+      matrix:
+        include:
+          - ${{ inputs }}
+          - extra: foo
+          - ${{ github.event }}
+          - more: bar
+    steps:
+      - run: echo ${{ matrix.extra }} ${{ matrix.target }}
+`, `
+    runs-on: ubuntu-latest
+    steps:
+      - run: echo ${{ inputs.extra }} ${{ inputs.target }} ${{ github.event.more }} ${{ matrix.ver }} ${{ needs.x }} ${{ steps.s1 }}
+`, `
+    runs-on: ubuntu-latest
+    needs: []
+    strategy:
+      matrix: ${{ fromJSON(inputs.target) }}
+    env:
+      A: ${{ matrix.anything }}
+    steps:
+      - id: s1
+        uses: actions/cache@v4
+        with:
+          path: x
+          key: y
+      - run: echo ${{ steps.s1.outputs.cache-hit }} ${{ steps.s1.outputs.nope }}
 `,
 }
 
 func verifC09Doc(ids []string, bodies []int) string {
-	src := "on: push\njobs:\n"
+	src := "on:\n  push:\n  workflow_dispatch:\n    inputs:\n      target:\n        type: string\njobs:\n"
 	for i, b := range bodies {
 		src += "  " + ids[i] + ":" + verifC09Jobs[b]
 	}
@@ -194,7 +231,7 @@ func HarnessC09Jobs() {
 	e1 := verifLintNode(alone, verifRules())
 	var got []*Error
 	for _, e := range e2 {
-		if e.Line > 2+shift {
+		if e.Line > 7+shift {
 			c := *e
 			c.Line -= shift
 			got = append(got, &c)
@@ -243,4 +280,31 @@ func HarnessC09Frozen(depth int) {
 	verifMonitorGlobals(false)
 	verifReach("checked")
 	_ = first
+}
+
+// HarnessC09FrozenJobs: the workflow-level scope types of the expression rule
+// (inputs, dispatch inputs, secrets, jobs) and all built-in tables are frozen
+// after the workflow header has been visited; visiting any job variant must not
+// write to them.
+func HarnessC09FrozenJobs() {
+	a := verifChoose("job", len(verifC09Jobs))
+	doc := verifParseYAML(verifC09Doc([]string{"ja"}, []int{a}))
+	w, _ := verifParseOnly(doc)
+	rule := NewRuleExpression(NewLocalActionsCache(nil, nil), NewLocalReusableWorkflowCache(nil, "/", nil))
+	rule.VisitWorkflowPre(w)
+	verifFreeze("RuleExpression.inputsTy", rule.inputsTy)
+	verifFreeze("RuleExpression.dispatchInputsTy", rule.dispatchInputsTy)
+	verifFreeze("RuleExpression.secretsTy", rule.secretsTy)
+	verifFreeze("RuleExpression.jobsTy", rule.jobsTy)
+	verifMonitorGlobals(true)
+	for _, j := range w.Jobs {
+		rule.VisitJobPre(j)
+		for _, s := range j.Steps {
+			rule.VisitStep(s)
+		}
+		rule.VisitJobPost(j)
+		verifCheck(rule.matrixTy == nil && rule.stepsTy == nil && rule.needsTy == nil, "per-job-scope-not-reset-after-job")
+	}
+	verifMonitorGlobals(false)
+	verifReach("visited")
 }
